@@ -748,6 +748,13 @@ func c12Guards(c *Ctx) {
 						}
 						return
 					}
+					if sl, ok := x.X.(*ssa.Slice); ok {
+						if al, ok := sl.X.(*ssa.Alloc); ok {
+							if arr, ok := al.Type().Underlying().(*types.Pointer).Elem().Underlying().(*types.Array); ok && sl.Low == nil && sl.High == nil && k < arr.Len() {
+								return // literal slice of known length
+							}
+						}
+					}
 					n++
 					if k == 0 && isFieldLoad("RelPath")(x.X) {
 						c.ok(fmt.Sprintf("%s/index[0]@RelPath", name), c.ipos(x), "the decoder guarantees a non-empty path list (C09-D/unmarshalSourceFile/non-empty)")
